@@ -36,6 +36,8 @@ structure Stage where
   pc   : Pc := .ret
   inq  : List Chunk := []
   intr : IntrSt := .none
+  /-- `stub.State` was initialised (`NewState()` of a stateful toxic) when the stub was created -/
+  hasState : Bool := false
 deriving Repr, DecidableEq
 
 /-- Controller: the API procedure currently running on this link. -/
@@ -86,12 +88,40 @@ structure Link where
   race     : Bool := false        -- a Go `select` had two ready cases whose order matters
 deriving Repr
 
+/-- The stateful toxic (`StatefulToxic`: only limit_data). -/
+def isStateful : Cfg → Bool
+  | .limitData _ => true
+  | _ => false
+
+/-- `go stub.Run(toxic)`.  `LimitDataToxic.Pipe` starts with
+`stub.State.(*LimitDataToxicState)`: on a stub that was created for another toxic (possible
+only when `link.stubs` and the chain are out of step) the type assertion panics. -/
 def Stage.start (s : Stage) (t : TCfg) (now : Int) : Stage :=
-  { s with t := t, pc := Toxi.Toxic.start t.cfg t.active now, intr := match s.intr with | .done _ => .none | x => x }
+  { s with t := t,
+           pc := if t.active && isStateful t.cfg && !s.hasState
+                 then .crash "interface conversion: interface {} is nil, not *toxics.LimitDataToxicState"
+                 else Toxi.Toxic.start t.cfg t.active now,
+           intr := match s.intr with | .done _ => .none | x => x }
+
+/-- A stub as `NewToxicLink` / `AddToxic` create it for toxic `t`. -/
+def Stage.fresh (t : TCfg) : Stage := { t := t, hasState := isStateful t.cfg }
+
+/-- A stub started with the toxic it was created for never hits the nil-state panic. -/
+theorem Stage.fresh_start (t : TCfg) (now : Int) :
+    (Stage.fresh t).start t now = { Stage.fresh t with pc := Toxi.Toxic.start t.cfg t.active now } := by
+  have h : (t.active && isStateful t.cfg && !isStateful t.cfg) = false := by
+    cases t.active <;> cases isStateful t.cfg <;> rfl
+  simp only [Stage.start, Stage.fresh, h, Bool.false_eq_true, if_false]
+
+/-- … nor does any stub (re)started with a stateless toxic. -/
+theorem Stage.start_stateless (s : Stage) (t : TCfg) (now : Int) (h : (t.active && isStateful t.cfg) = false) :
+    s.start t now = { s with t := t, pc := Toxi.Toxic.start t.cfg t.active now,
+                             intr := match s.intr with | .done _ => .none | x => x } := by
+  simp [Stage.start, h]
 
 /-- `NewToxicLink` + `Start`: one stub per chain entry, all running. -/
 def Link.new (chain : List TCfg) (now : Int) : Link :=
-  { stages := chain.map fun t => ({ t := t } : Stage).start t now }
+  { stages := chain.map fun t => (Stage.fresh t).start t now }
 
 /-! ### per-stage events -/
 
@@ -421,28 +451,38 @@ def Coll.findToxic (c : Coll) (name : String) : Option (Dir × Nat) :=
 def mapLinks (c : Coll) (d : Dir) (f : Link → Link) : Coll :=
   { c with links := c.links.map fun nl => if nl.dir == d then { nl with l := f nl.l } else nl }
 
+/-- `ToxicLink.AddToxic` up to its `InterruptToxic`: append the stub (not yet wired) and start
+interrupting the last one. -/
+def Link.beginAdd (l : Link) (t : TCfg) : Link :=
+  let i := l.stages.length
+  { l with stages := modifyAt (l.stages ++ [Stage.fresh t]) (i - 1) (fun s => { s with intr := .pending }), detached := true, ctl := some (.addWait t) }
+
+/-- `ToxicLink.UpdateToxic` up to its `InterruptToxic`. -/
+def Link.beginUpdate (l : Link) (idx : Nat) (t : TCfg) : Link :=
+  { l with stages := modifyAt l.stages idx (fun s => { s with intr := .pending }), ctl := some (.updWait idx t) }
+
+/-- `ToxicLink.RemoveToxic` up to its first `InterruptToxic`. -/
+def Link.beginRemove (l : Link) (idx : Nat) (cleanup : Bool) : Link :=
+  { l with stages := modifyAt l.stages idx (fun s => { s with intr := .pending }), ctl := some (.rmIntr idx cleanup) }
+
 /-- `chainAddToxic`: append to the chain; on every link of the direction, append the stub
 (not yet wired) and start interrupting the last one. -/
 def Coll.addToxic (c : Coll) (d : Dir) (t : TCfg) : Coll :=
   let c1 := c.setChain d (c.chain d ++ [t])
-  let c2 := mapLinks c1 d fun l =>
-    let i := l.stages.length
-    { l with stages := modifyAt (l.stages ++ [{ t := t }]) (i - 1) (fun s => { s with intr := .pending }), detached := true, ctl := some (.addWait t) }
+  let c2 := mapLinks c1 d fun l => l.beginAdd t
   { c2 with busy := true }
 
 /-- `chainUpdateToxic`. -/
 def Coll.updateToxic (c : Coll) (d : Dir) (idx : Nat) (t : TCfg) : Coll :=
   let c1 := c.setChain d ((c.chain d).set idx t)
-  let c2 := mapLinks c1 d fun l =>
-    { l with stages := modifyAt l.stages idx (fun s => { s with intr := .pending }), ctl := some (.updWait idx t) }
+  let c2 := mapLinks c1 d fun l => l.beginUpdate idx t
   { c2 with busy := true }
 
 /-- `chainRemoveToxic`. -/
 def Coll.removeToxic (c : Coll) (d : Dir) (idx : Nat) : Coll :=
   let cleanup := ((c.chain d)[idx]?).map (·.cleanup) |>.getD false
   let c1 := c.setChain d ((c.chain d).eraseIdx idx)
-  let c2 := mapLinks c1 d fun l =>
-    { l with stages := modifyAt l.stages idx (fun s => { s with intr := .pending }), ctl := some (.rmIntr idx cleanup) }
+  let c2 := mapLinks c1 d fun l => l.beginRemove idx cleanup
   { c2 with busy := true }
 
 def Coll.linkMove (c : Coll) : List NLink → Option (List NLink)
